@@ -11,6 +11,7 @@ import Hts.Lemmas.FaiFileText
 import Hts.Lemmas.FaiSane
 import Hts.Lemmas.FaiSample
 import Hts.Lemmas.FaiReaderAt
+import Hts.Lemmas.FaiScanner
 set_option linter.unusedVariables false
 set_option linter.unusedSimpArgs false
 namespace Hts.Props.C19
@@ -418,5 +419,123 @@ example : IndexOK [⟨[97], 6, 3, 4, 5⟩, ⟨[98], 6, 15, 4, 5⟩] := by
   · intro r hr
     simp only [List.mem_cons, List.not_mem_nil, or_false] at hr
     rcases hr with rfl | rfl <;> decide
+
+/-! ### Extension round 5: the scanner — tokens do not depend on how the source delivers its bytes
+
+`Model/FaiScan.lean`: `split` (the Split function of `NewIndex`), `scanTokens sp eofWithLast chunks` (bufio.Scanner's
+loop over a source whose successive `Read`s return `chunks`, `io.EOF` arriving with the last chunk or on a separate
+empty read; empty chunks = empty reads without EOF are allowed), `lines` (the specification). -/
+
+/-- `lines` is a cut of the data: nothing lost, nothing reordered. -/
+theorem lines_flatten (data : Bytes) : (lines data).flatten = data := by
+  induction data with
+  | nil => rfl
+  | cons b bs ih =>
+    simp only [lines]
+    split
+    · cases h : lines bs with
+      | nil => rw [h] at ih; simp at ih; simp [← ih]
+      | cons l ls => rw [h] at ih; simp at ih; simp [← ih]
+    · simp [ih]
+
+/-- `lines`, first clause: an LF-free piece followed by an LF is the first line, terminator included. -/
+theorem lines_terminated (l : Bytes) (rest : Bytes) (hl : ∀ x ∈ l, x ≠ LF) :
+    lines (l ++ LF :: rest) = (l ++ [LF]) :: lines rest :=
+  Hts.Lemmas.FaiScanner.lines_terminated l LF rest
+    (fun x hx => by
+      have := hl x hx
+      simp only [notLF, decide_eq_true_eq]
+      intro h; exact this (UInt8.toNat_inj.mp h))
+    (by decide)
+
+/-- `lines`, last clause: a non-empty LF-free rest is the one final, unterminated line (and `lines [] = []`). -/
+theorem lines_unterminated (l : Bytes) (hne : l ≠ []) (hl : ∀ x ∈ l, x ≠ LF) : lines l = [l] ∧ lines [] = [] :=
+  ⟨Hts.Lemmas.FaiScanner.lines_unterminated l hne
+    (fun x hx => by
+      have := hl x hx
+      simp only [notLF, decide_eq_true_eq]
+      intro h; exact this (UInt8.toNat_inj.mp h)), rfl⟩
+
+/-- `split` never stalls and never advances too far: a token always comes with `0 < advance ≤ len(data)`
+(so the model's "outside the model" branch of `drainF` is dead for it). -/
+theorem split_advance_ok (data : Bytes) (atEOF : Bool) (adv : Nat) (tok : Bytes)
+    (h : split data atEOF = (adv, some tok)) : 0 < adv ∧ adv ≤ data.length := by
+  unfold split at h
+  split at h
+  · simp at h
+  · next hne =>
+    split at h
+    · next i hi =>
+      simp only [indexLF] at hi
+      split at hi
+      · next hlt =>
+        simp only [Option.some.injEq] at hi
+        simp only [Prod.mk.injEq] at h
+        omega
+      · simp at hi
+    · split at h
+      · next he =>
+        simp only [Prod.mk.injEq, Option.some.injEq] at h
+        subst he
+        have : data ≠ [] := by
+          intro h0; subst h0; simp at hne
+        have := List.length_pos_iff.mpr this
+        omega
+      · simp at h
+
+/-- MAIN: for every byte string, every way of cutting it into reads (empty reads included) and both ways of
+delivering `io.EOF`, the scanner's token sequence is `lines` of the concatenated data. -/
+theorem newIndex_tokens_eq_lines (eofWithLast : Bool) (chunks : List Bytes) :
+    scanTokens split eofWithLast chunks = lines chunks.flatten := by
+  have := Hts.Lemmas.FaiScanner.scanFrom_split eofWithLast chunks []
+  simpa [scanTokens] using this
+
+/-- Corollary: two deliveries of the same bytes give the same tokens. -/
+theorem newIndex_tokens_independent_of_delivery (e₁ e₂ : Bool) (chunks₁ chunks₂ : List Bytes)
+    (h : chunks₁.flatten = chunks₂.flatten) :
+    scanTokens split e₁ chunks₁ = scanTokens split e₂ chunks₂ := by
+  rw [newIndex_tokens_eq_lines, newIndex_tokens_eq_lines, h]
+
+/-- The whole-string model `newIndex` (used by every theorem above) cuts its input into exactly `lines`. -/
+theorem newIndex_is_stepAll_over_lines (fasta : Bytes) : newIndex fasta = newIndexTokens (lines fasta) :=
+  Hts.Lemmas.FaiScanner.newIndex_eq_tokens fasta
+
+/-- Composition: `NewIndex` over ANY delivery of `fasta` equals the whole-string model — so every theorem about
+`newIndex fasta` holds for every delivery. -/
+theorem newIndex_every_delivery (eofWithLast : Bool) (chunks : List Bytes) :
+    newIndexStream eofWithLast chunks = newIndex chunks.flatten := by
+  rw [newIndex_is_stepAll_over_lines, newIndexStream, newIndex_tokens_eq_lines]
+
+/-- `index_true` for every delivery: whatever the chunking / EOF style, a well-formed file gets its true index. -/
+theorem index_true_every_delivery (f : File) (h : f.WF) (eofWithLast : Bool) (chunks : List Bytes)
+    (hc : chunks.flatten = f.render) :
+    newIndexStream eofWithLast chunks = .ok (f.entries.map ofEntry) := by
+  rw [newIndex_every_delivery, hc]; exact index_true f h
+
+/-- The seeded variant (`splitEager`: at EOF everything left is one token) is caught: on `"a\nb\n"` delivered in one
+read together with `io.EOF` its tokens are `["a\nb\n"]`, not `lines = ["a\n","b\n"]`; over a source that reports EOF
+separately the same bytes come out right — which is why a `bytes.Reader`-only test cannot see it. The resulting
+index differs too (`>a\nAC\nGT\n`: one record named `a\nAC\nGT` of length 0 instead of `a 4 3 2 3`). -/
+theorem newIndex_tokens_witness :
+    scanTokens splitEager true [[97, 10, 98, 10]] = [[97, 10, 98, 10]] ∧
+    lines [97, 10, 98, 10] = [[97, 10], [98, 10]] ∧
+    scanTokens splitEager false [[97, 10, 98, 10]] = lines [97, 10, 98, 10] ∧
+    scanTokens split true [[97, 10, 98, 10]] = lines [97, 10, 98, 10] ∧
+    newIndexTokens (scanTokens splitEager true [[62, 97, 10, 65, 67, 10, 71, 84, 10]]) =
+      .ok [⟨[97, 10, 65, 67, 10, 71, 84], 0, 9, 0, 0⟩] ∧
+    newIndexStream true [[62, 97, 10, 65, 67, 10, 71, 84, 10]] = .ok [⟨[97], 4, 3, 2, 3⟩] :=
+  ⟨by decide, by decide, by decide, by decide, rfl, rfl⟩
+
+/-! non-vacuity of round 5: concrete deliveries (byte by byte, with empty reads, EOF both ways) -/
+example : scanTokens split false [[97], [], [10, 98], [], [10], [99]] = [[97, 10], [98, 10], [99]] := by decide
+example : scanTokens split true [[97], [], [10, 98], [], [10], [99]] = [[97, 10], [98, 10], [99]] := by decide
+example : scanTokens split true [] = [] ∧ scanTokens split false [[], []] = [] := by decide
+example : lines [10, 10, 97] = [[10], [10], [97]] := by decide
+example := newIndex_tokens_independent_of_delivery true false [[97, 10, 98], [10]] [[97], [10, 98, 10], []] (by decide)
+example := index_true_every_delivery sampleFile (by decide) true [sampleFile.render] (by simp)
+example := index_true_every_delivery sampleFile (by decide) false
+  [sampleFile.render.take 7, [], sampleFile.render.drop 7] (by simp)
+example : split [97, 10, 98] true = (2, some [97, 10]) ∧ split [97] false = (0, none) ∧
+    split [97] true = (1, some [97]) ∧ split [] true = (0, none) := by decide
 
 end Hts.Props.C19
